@@ -11,7 +11,7 @@
 From Coq Require Import ZArith List Bool Arith.
 From CrabV Require Import Base.ZInf Scalar.Itv Ir.Syntax Ir.Cfg Dom.ItvEnv Dom.ItvEnvSound Dom.ItvDomain
      Fix.Wto Fix.WtoCheck Fix.Engine Ana.Transformer Ana.FwdItv Ana.FwdItvSound Ana.Checker Ana.FwdItvEngineSound
-     Ana.CheckerEngine.
+     Ana.CheckerEngine Ana.BackwardCheck Ana.FwdBwd Ana.FwdBwdSound.
 Import ListNotations.
 
 Theorem C02_block_verdicts_sound : forall bl inv a,
@@ -45,6 +45,32 @@ Theorem C02_engine_verdicts_sound :
   forall n a, ReachPre p entry use_asm asm Init n a -> sound_verdicts (p_block p n) (e_pre env e n) a.
 Proof. exact engine_verdicts_sound. Qed.
 
+(* ---- the combined forward+backward analyzer (mirror Ana/FwdBwd.v of intra_forward_backward_analyzer:
+   refinement loop, narrowing of the refined assumptions, dominance-based discharge, the guards
+   "CFG has an exit" and "every assertion can reach the exit", use_refined_invariants,
+   max_refine_iterations; proofs Ana/FwdBwdSound.v, on top of the soundness of the forward engine
+   (C01) and of the backward tables (C11)).  The flag (negb use_refined) says: 'safe' verdicts are
+   sound for every setting, 'unreachable' verdicts when use_refined_invariants = false. ---- *)
+Theorem C02_forward_backward_verdicts_sound :
+  forall p, prog_wfb p = true -> forallb block_bwd_ok (p_blocks p) = true ->
+  forall (Init : store -> Prop) init, (forall s, Init s -> genv init s) ->
+  forall e0 entry exit_block delay desc fuel fresh use_refined maxref o,
+  fb_run p e0 entry exit_block delay desc fuel fresh use_refined maxref init = Some o ->
+  forall n a, ReachPre p entry false (fun _ => None) Init n a ->
+  fb_sound_verdicts (negb use_refined) (mem_nat n (fb_proved o)) (p_block p n) (fb_inv o n) a.
+Proof. exact fb_run_verdicts_sound. Qed.
+
+(* with use_refined_invariants the 'unreachable' verdicts are wrong (known finding C02) *)
+Theorem C02_forward_backward_unreachable_refined_refuted : ~ fb_unreachable_statement.
+Proof. exact fb_unreachable_refined_refuted. Qed.
+
+(* non-vacuity: b0: y := x; b1 (exit): assume(x <= 0); assert(y <= 0) - a warning for the forward
+   analysis alone, proved by the backward refinement *)
+Example C02_forward_backward_example :
+  fb_analyze fb_example_prog 0 0 None 1 1 400 1002%N false 5 e_top = Some [(1, VWarn)] /\
+  fb_analyze fb_example_prog 0 0 (Some 1) 1 1 400 1002%N false 5 e_top = Some [(1, VSafe)].
+Proof. split; vm_compute; reflexivity. Qed.
+
 (* non-vacuity: x := 0; loop x <= 9: x++; exit: assert(x = 10) is safe, assert(x <= 5) a warning *)
 Example C02_example :
   let x := 0%N in
@@ -55,3 +81,5 @@ Proof. vm_compute. reflexivity. Qed.
 Print Assumptions C02_block_verdicts_sound.
 Print Assumptions C02_forward_verdicts_sound.
 Print Assumptions C02_engine_verdicts_sound.
+Print Assumptions C02_forward_backward_verdicts_sound.
+Print Assumptions C02_forward_backward_unreachable_refined_refuted.
